@@ -52,8 +52,11 @@ def run(ctx):
         # the bound is the length parameter, unmodified in the loop
         nref = q.param_by_index(eq, 2)
         cond = eq.N(L).get('cond', -1)
-        uses_n = cond >= 0 and nref in eq.subtree_refs(cond)
-        ctx.check(uses_n and not q.writes_to(eq, nref), R3, 'equal:loop-bound-is-n', 'loop bound is not the full length argument', eq.loc(L))
+        # ... either directly (i < n) or through single-definition locals computed from it (left_end = left + n); the loop
+        # condition must not read the compared bytes (no dereference / subscript in it)
+        uses_n = cond >= 0 and nref in q.deep_refs(eq, cond)
+        derefs = cond >= 0 and any((eq.N(j)['k'] == 'UnaryOperator' and eq.N(j).get('op') == '*') or eq.N(j)['k'] == 'ArraySubscriptExpr' for j in eq.walk(cond))
+        ctx.check(uses_n and not derefs and not q.writes_to(eq, nref), R3, 'equal:loop-bound-is-n', 'loop bound is not the full length argument', eq.loc(L))
         # no && / || / ?: on compared data inside the loop condition
         cn = [j for j in eq.walk(cond)] if cond >= 0 else []
         ctx.check(not any(eq.N(j)['k'] in ('ConditionalOperator',) or (eq.N(j)['k'] == 'BinaryOperator' and eq.N(j).get('op') in ('&&', '||')) for j in cn),
@@ -225,6 +228,125 @@ def run(ctx):
         uses = [i for i in f.calls() if (f.bcallee(i) or '').startswith('cppcms::crypto::cbc::')]
         ctx.check(bool(lcalls) and all(q.before(f, lcalls[0], u) for u in uses), R5, '%s:load-first' % q.fkey(f), 'cbc object used before load()', f.where)
     ctx.floor(R5, 6)
+    # ---- R2 MAC-COVERAGE ------------------------------------------------------------------
+    R2 = ctx.rule('C05.R2', 'decrypt: the MAC is computed over the whole message [0, size - digest), compared with the trailing digest_size bytes, and nothing outside the authenticated range is decrypted or copied out')
+    from vlib import lin as _lin
+    from vlib.lin import Lin as _L
+    for f in decs:
+        cp_ = q.param_by_index(f, 0)
+        # single-definition locals with a linear definition are substituted (real_size = cipher.size() - digest_size, cipher_size = cipher.size(), ...)
+        S0 = _lin.Symb(f)
+        env = {}
+        for _ in range(3):
+            S0 = _lin.Symb(f, env)
+            for i in f.all_nodes():
+                if f.N(i)['k'] == 'DeclStmt':
+                    for d in f.N(i)['decls']:
+                        if d.get('init') is not None and len(f.defs_of_var(d['ref'])) == 1 and ((f.types[d['t']] or '').replace('const ', '') in ('unsigned long', 'unsigned int', 'int', 'long', 'size_t') or (f.types[d['t']] or '').rstrip().endswith('*')):
+                            env[d['ref']] = S0.lin(d['init'])
+        S = _lin.Symb(f, env)
+        SIZE = None
+        for i in f.calls_deep():
+            if q.short_of(f.callee(i)) in ('size', 'length') and f.N(i)['k'] == 'CXXMemberCallExpr' and f.ref_of(f.obj(i)) == cp_:
+                SIZE = S.lin(i)
+        DIG = [S.lin(i) for i in f.calls() if q.short_of(f.callee(i)) == 'digest_size']
+        DC = f.calls_deep()
+
+        def data_off(node):
+            """offset of a pointer expression into the cipher text, or None"""
+            l = S.lin(node)
+            base = [a for a in l.atoms() if a.startswith(cp_) and (a.endswith('.c_str()') or a.endswith('.data()'))]
+            if len(base) != 1:
+                return None
+            return l - _L.atom(base[0])
+        macs = [i for i in DC if f.bcallee(i) == 'cppcms::crypto::hmac::append' and data_off(f.args(i)[0]) is not None]
+        eqs = [i for i in DC if f.bcallee(i) == EQUAL]
+        ok = len(macs) == 1 and len(eqs) == 1 and SIZE is not None and bool(DIG)
+        detail = {}
+        if ok:
+            m0, mlen = data_off(f.args(macs[0])[0]), S.lin(f.args(macs[0])[1])
+            ea = [a for a in f.args(eqs[0])[:2] if data_off(a) is not None]
+            elen = S.lin(f.args(eqs[0])[2])
+            ok = len(ea) == 1
+            if ok:
+                e0 = data_off(ea[0])
+                zero = _L.const(0).key()
+                detail = {'mac': [repr(m0), repr(mlen)], 'digest_at': repr(e0), 'digest_len': repr(elen), 'size': repr(SIZE)}
+                ok = m0.key() == zero and (e0 - m0 - mlen).key() == zero and (e0 + elen - SIZE).key() == zero and any((elen - d_).key() == zero for d_ in DIG)
+        ctx.check(ok, R2, '%s:mac-covers-everything-before-the-trailing-digest' % q.fkey(f), 'the MAC does not cover [0, size - digest_size) or is not compared with the last digest_size bytes', f.where, detail=detail)
+        if ok:
+            # other reads of the cipher text: cbc decrypt(ptr, out, n), substr(pos, n), assign(ptr, n), std::string(ptr, n)
+            uses = []
+            for i in DC:
+                if i in macs or i in eqs:
+                    continue
+                a = f.args(i)
+                if f.bcallee(i) == 'cppcms::crypto::cbc::decrypt' and data_off(a[0]) is not None:
+                    uses.append((i, data_off(a[0]), S.lin(a[2])))
+                elif q.short_of(f.callee(i)) == 'substr' and f.N(i)['k'] == 'CXXMemberCallExpr' and f.ref_of(f.obj(i)) == cp_ and len(a) == 2:
+                    uses.append((i, S.lin(a[0]), S.lin(a[1])))
+                elif q.short_of(f.callee(i)) in ('assign', 'append', 'basic_string') and len(a) >= 2 and data_off(a[0]) is not None:
+                    uses.append((i, data_off(a[0]), S.lin(a[1])))
+            cons = [_lin.ge(SIZE - DIG[0])] + [_lin.ge(_L.atom(x)) for x in (mlen.atoms())]
+            for k, (i, o, n_) in enumerate(uses):
+                inside = _lin.implies(cons, _lin.ge(o - m0)) and _lin.implies(cons, _lin.ge(m0 + mlen - o - n_))
+                ctx.check(inside, R2, '%s:use#%d:inside-authenticated-range' % (q.fkey(f), k), 'cipher-text bytes outside the MAC-covered range are decrypted / copied out', f.loc(i), detail={'offset': repr(o), 'length': repr(n_)})
+            ctx.check(bool(uses), R2, '%s:uses-found' % q.fkey(f), 'no use of the authenticated cipher text found', f.where)
+    # encrypt side: the MAC covers everything that precedes it in the produced cookie
+    encs = P.overriders_of('cppcms::sessions::encryptor::encrypt')
+    for f in encs:
+        env = {}
+        for _ in range(3):
+            S0 = _lin.Symb(f, env)
+            for i in f.all_nodes():
+                if f.N(i)['k'] == 'DeclStmt':
+                    for d in f.N(i)['decls']:
+                        ty = (f.types[d['t']] or '').replace('const ', '')
+                        if d.get('init') is not None and len(f.defs_of_var(d['ref'])) == 1 and ty in ('unsigned long', 'unsigned int', 'int', 'long', 'size_t'):
+                            env[d['ref']] = S0.lin(d['init'])
+        S = _lin.Symb(f, env)
+
+        def vec_off(node):
+            """(container variable, Lin offset) for &v[e], &v.front(), v.c_str()+e, v.data()+e"""
+            j = f.strip(node)
+            n = f.N(j)
+            while n['k'] in ('CStyleCastExpr', 'CXXReinterpretCastExpr', 'CXXStaticCastExpr') and n['ch']:
+                j = f.strip(n['ch'][0])
+                n = f.N(j)
+            if n['k'] == 'UnaryOperator' and n.get('op') == '&':
+                c = f.strip(n['ch'][0])
+                cn = f.N(c)
+                if cn['k'] == 'CXXOperatorCallExpr' and cn.get('op') == '[]':
+                    return f.ref_of(cn['ch'][1]), S.lin(cn['ch'][2])
+                if cn['k'] == 'CXXMemberCallExpr' and q.short_of(f.callee(c)) == 'front':
+                    return f.ref_of(f.obj(c)), _L.const(0)
+            if n['k'] == 'CXXMemberCallExpr' and q.short_of(f.callee(j)) in ('c_str', 'data'):
+                return f.ref_of(f.obj(j)), _L.const(0)
+            if n['k'] == 'BinaryOperator' and n.get('op') == '+':
+                b = vec_off(n['ch'][0])
+                if b and b[0]:
+                    return b[0], b[1] + S.lin(n['ch'][1])
+            return None, None
+        aps = [i for i in f.calls() if f.bcallee(i) == 'cppcms::crypto::hmac::append']
+        ros = [i for i in f.calls() if f.bcallee(i) == 'cppcms::crypto::hmac::readout']
+        ok = len(aps) == 1 and len(ros) == 1
+        detail = {}
+        if ok:
+            rv, ro = vec_off(f.args(ros[0])[0])
+            mlen = S.lin(f.args(aps[0])[1])
+            mv, mo = vec_off(f.args(aps[0])[0])
+            zero = _L.const(0).key()
+            detail = {'mac_len': repr(mlen), 'digest_at': repr(ro)}
+            # the digest is stored right after mlen bytes of the output buffer, and those mlen bytes are what was MAC'd:
+            # either the MAC input is that very buffer prefix, or it is the plain text that is copied to the prefix with the same length
+            ok = rv is not None and ro is not None and (ro - mlen).key() == zero and mo is not None and mo.key() == zero
+            if ok and mv != rv:
+                cps = [i for i in f.calls() if f.callee(i) == 'memcpy' and vec_off(f.args(i)[0])[0] == rv and vec_off(f.args(i)[0])[1].key() == zero and
+                       vec_off(f.args(i)[1])[0] == mv and (S.lin(f.args(i)[2]) - mlen).key() == zero]
+                ok = len(cps) == 1
+        ctx.check(ok, R2, '%s:digest-follows-exactly-the-authenticated-bytes' % q.fkey(f), 'the digest is not stored directly after the bytes it authenticates', f.where, detail=detail)
+    ctx.floor(R2, 6)
+
     # ---- R7 KEY-SPLIT -------------------------------------------------------------------
     R7 = ctx.rule('C05.R7', 'aes_factory(algo,key): the encryption key and the MAC key are taken from disjoint material that covers the configured secret '
                             '(exact-length key: [0,cbc) and [cbc,cbc+digest); shorter key: two separate HMAC derivations with different labels)')
